@@ -87,8 +87,10 @@ inductive Src
   | promiseFn (e : Exec) (p : Nat) (f : Ful)   -- AsyncContract(e, fn)     / lazy: LazyContract(e, fn) (PromiseCore)
   | sharedReady (r : R)                        -- MakeSharedContract(), Set at once, the SharedFuture returned
   | sharedContract (p : Nat) (f : Ful)         -- MakeSharedContract(), the SharedFuture returned
-  | sharedKept (p : Nat) (f : Ful) (pre : Bool) -- a COPY of a SharedFuture handle the client keeps (and observes again later);
-                                               -- its promise p is used as f says; pre: fulfilled before the pipeline was built
+  | sharedKept (e : Exec) (p : Nat) (f : Ful) (pre : Bool)
+      -- what a SharedFuture handle the client keeps (and observes again later) gives a pipeline: a COPY of the handle (e = inl),
+      -- or Share(handle) = MakeContract + Connect (e = inl) / Share(handle, e) = MakeContractOn(e) + Connect: a unique
+      -- Future / FutureOn that CARRIES e.  Its promise p is used as f says; pre: fulfilled before the pipeline was built
 deriving DecidableEq, Repr
 
 mutual
@@ -315,9 +317,11 @@ def startSrc (cfg : Cfg) (src : Src) (ctx : Option Nat) (g : G) : Started :=
     | .queued jid k g' => .wait (.job jid k (.promiseHead p f)) e g'
   | .sharedReady r => .go r .inl ctx g
   | .sharedContract p f => .wait (.promise p f) .inl g
-  | .sharedKept p f pre =>
-    -- the copy of the kept handle counts as the source "core" of the ghost accounting: one reference, released by its consumer
-    if g.isSet p pre then .go f.result .inl ctx g else .wait (.promise p f) .inl g
+  | .sharedKept e p f pre =>
+    -- the copy of the kept handle (or the contract core of Share) is the source "core" of the ghost accounting: released by its
+    -- consumer.  Whether the SharedFuture is ready already or not, the state the next step is attached to carries `e`
+    -- (Share(sf, e) always goes through MakeContractOn(e): /repo async/share.hpp)
+    if g.isSet p pre then .go f.result e ctx g else .wait (.promise p f) e g
 
 /-- detail::Start(head[, e]): the head of a Task is submitted to its executor (`ovr`: ToFuture(e) / Detach(e) / Cancel) -/
 def startLazy (cfg : Cfg) (src : Src) (ovr : Option Exec) (ctx : Option Nat) (g : G) : Started :=
@@ -621,7 +625,7 @@ def specSrc (cfg : Cfg) (src : Src) (ovr : Option Exec) (lazy : Bool) (subs : Li
     (r', e, subs')
   | .sharedReady r => (r, .inl, subs)
   | .sharedContract _ f => (f.result, .inl, subs)
-  | .sharedKept _ f _ => (f.result, .inl, subs)
+  | .sharedKept e _ f _ => (f.result, e, subs)
 
 mutual
   /-- the functor of a step is offered `input` (its own input, or StopError if its executor refused it) -/
